@@ -174,3 +174,32 @@ def negative_module(mod, macro, kind):
         out.append("        %s!(world, |%s| {});" % (macro, params))
     out += ["    }", "}"]
     return "\n".join(out)
+
+
+def twin_pair(name, path):
+    """A decorated program and its erased twin (both written out in `path`), through the REAL macros.
+    Returns (status, detail): 'agree' | 'differ' | 'decorated-rejected' | 'infrastructure'."""
+    src = open(path).read()
+    root = _crate("twin_" + name)
+    def build(main_body, mods):
+        with open(os.path.join(root, 'src', 'main.rs'), 'w') as f:
+            f.write('#![allow(unused)]\n' + mods + '\nfn main() {\n' + main_body + '\n}\n')
+        return _cargo(root, ['run'])
+    # the erased twin alone must build and run (otherwise the corpus itself is out of date: infrastructure)
+    cut = src.index('pub mod decorated')
+    cut2 = src.index('pub mod erased')
+    erased_only = src[:cut] + src[cut2:]
+    rc, out, err = build('    println!("E {:?}", erased::observe());', erased_only)
+    if rc != 0 or 'E [' not in out:
+        return 'infrastructure', 'the erased twin does not build/run: ' + err[-400:]
+    rc, out, err = build('    println!("D {:?}", decorated::observe());\n    println!("E {:?}", erased::observe());', src)
+    if rc != 0 and 'D [' not in out:
+        errs = [l for l in err.splitlines() if l.startswith('error')]
+        return 'decorated-rejected', 'the decorated program does not compile/run although its erased twin does: ' + ' | '.join(errs[:3])[:400] + ' ' + err[-200:].replace('\n', ' ')
+    d = [l for l in out.splitlines() if l.startswith('D ')]
+    e = [l for l in out.splitlines() if l.startswith('E ')]
+    if not d or not e:
+        return 'infrastructure', 'no output: ' + err[-300:]
+    if d[0][2:] == e[0][2:]:
+        return 'agree', d[0][2:]
+    return 'differ', 'decorated program observes %s, its erased twin %s' % (d[0][2:], e[0][2:])
